@@ -28,6 +28,7 @@
 
 #include <string.h>
 #include "ym3438.h"
+#include "../../opnmidi_verif.h" /* VERIF_LOOP: expands to nothing unless LIBOPNMIDI_VERIF is defined */
 
 enum {
     eg_num_attack = 0,
@@ -1485,6 +1486,7 @@ void OPN2_WriteBuffered(ym3438_t *chip, Bit32u port, Bit8u data)
         skip = chip->writebuf[chip->writebuf_last].time - chip->writebuf_samplecnt;
         chip->writebuf_samplecnt = chip->writebuf[chip->writebuf_last].time;
         while (skip--)
+        VERIF_LOOP(nuked_writebuffered_skip)
         {
             OPN2_Clock(chip, buffer);
         }
@@ -1516,6 +1518,7 @@ void OPN2_Generate(ym3438_t *chip, Bit16s *buf)
     buf[1] = 0;
 
     for (i = 0; i < 24; i++)
+    VERIF_LOOP(nuked_generate_cycles)
     {
         switch (chip->cycles >> 2)
         {
@@ -1560,6 +1563,7 @@ void OPN2_Generate(ym3438_t *chip, Bit16s *buf)
         }
 
         while (chip->writebuf[chip->writebuf_cur].time <= chip->writebuf_samplecnt)
+        VERIF_LOOP(nuked_generate_flush)
         {
             if (!(chip->writebuf[chip->writebuf_cur].port & 0x04))
             {
